@@ -348,6 +348,32 @@ inline void prop_reg(const vf::Case& c, Ctx& ctx)
                 VF_CHECK(et.get_for_list(list).size() == 2 && et.track_ids(list).size() == 2, sname(sc) << ": listing loses an entity");
             }
             break;
+        case 17:  // F36: 2.x removing a crate entry whose track id is not positive (the schema's delete trigger skips those)
+            for (auto sc : e::supported_v2_schemas)
+                for (int pos = 0; pos < 3; ++pos)
+                    for (int64_t bad : {int64_t{-1}, int64_t{0}, INT64_MIN})
+                    {
+                        auto db = e::create_temporary_database(sc);
+                        auto t1 = db.create_track(minimal_snapshot("a/1.mp3"));
+                        auto t2 = db.create_track(minimal_snapshot("a/2.mp3"));
+                        auto c = db.create_root_crate("A");
+                        if (pos == 0) c.add_track(bad);
+                        c.add_track(t1);
+                        if (pos == 1) c.add_track(bad);
+                        c.add_track(t2);
+                        if (pos == 2) c.add_track(bad);
+                        VF_CHECK(c.tracks().size() == 3, sname(sc) << ": the crate does not list the three entries added");
+                        for (auto& t : c.tracks())
+                            if (t.id() == bad)
+                                c.remove_track(t);
+                        auto left = c.tracks();  // used to abort: the predecessor of the removed entry still pointed at it
+                        VF_CHECK(left.size() == 2 && left[0].id() == t1.id() && left[1].id() == t2.id(),
+                                 sname(sc) << ": after removing the entry with track id " << bad << " at position " << pos << " the crate lists " << left.size() << " entries");
+                        c.add_track(bad);
+                        VF_CHECK(c.tracks().size() == 3, sname(sc) << ": the entry cannot be added again");
+                        db.verify();
+                    }
+            break;
         default: break;
     }
 }
